@@ -409,3 +409,17 @@ Proof.
     + rewrite <- app_assoc. apply Forall_app. split; assumption.
     + rewrite <- app_assoc, concat_app, D2, app_assoc, C1, <- app_assoc. reflexivity.
 Qed.
+
+(* ---- StringStream *)
+Lemma ss_run_safe_proof : forall kmax ops, Forall (sop_ok kmax) ops ->
+  forall str, ss_run str ops = Some (str ++ flat_map sop_bytes ops).
+Proof.
+  intros kmax ops. induction ops as [|o r IH]; intros Hall str; cbn [ss_run flat_map].
+  - rewrite app_nil_r. reflexivity.
+  - inversion Hall as [|? ? Ho Hr]; subst. destruct o as [data|c|kb f|]; cbn [ss_step sop_bytes].
+    + rewrite IH by exact Hr. rewrite app_assoc. reflexivity.
+    + rewrite IH by exact Hr. rewrite app_assoc. reflexivity.
+    + destruct Ho as [[Ho Hf] Hk]. replace ((f_foot f <=? kb) && (zlen (f_out f) <=? kb)) with true by lia.
+      rewrite IH by exact Hr. rewrite app_assoc. reflexivity.
+    + rewrite IH by exact Hr. reflexivity.
+Qed.
